@@ -2,6 +2,7 @@ package c18
 
 import (
 	"math"
+	"regexp"
 	"sort"
 
 	"verif/harness/internal/hx"
@@ -185,6 +186,33 @@ type exprGen struct {
 	set  *sampleSet
 	hint *series // the query time was chosen for this series: selectors prefer to select it
 	multi bool   // selectors prefer to match several metric names (under a `without` aggregation)
+	avoid bool   // keep clear of the triggers of the known findings (empty-value matchers, regexes that
+	// behave differently unanchored); 80 % of the cases, so that fewer cases are masked by them
+}
+
+// rxSafe: does the regex select the same values of the label anchored (PromQL) and under the
+// defect models of finding matcher-regex-unanchored, over the values present in the set?
+func (g *exprGen) rxSafe(ln string, r *rx) bool {
+	anch, err1 := regexp.Compile("^(?:" + r.text() + ")$")
+	un, err2 := regexp.Compile(r.text())
+	if err1 != nil || err2 != nil {
+		return false
+	}
+	vals := map[string]bool{"": true}
+	for _, sr := range g.set.series {
+		for _, l := range sr.labels {
+			if l.name == ln {
+				vals[l.value] = true
+			}
+		}
+	}
+	for v := range vals {
+		a := anch.MatchString(v)
+		if a != un.MatchString(v) {
+			return false
+		}
+	}
+	return true
 }
 
 func (g *exprGen) pick(xs []string) string { return xs[g.r.Intn(len(xs))] }
@@ -280,12 +308,26 @@ func (g *exprGen) genSelector() *selector {
 			m.kind, m.lit = "ne", lv
 		case 8:
 			m.kind, m.lit = "eq", "" // label absent
+			if g.avoid {
+				m.kind, m.re = "nre", &rx{kind: "plus", a: &rx{kind: "any"}} // the same, as a regex: !~".+"
+			}
 		case 9:
 			m.kind, m.lit = "ne", "" // label present
-		case 10, 11, 12, 13:
-			m.kind, m.re = "re", g.genRx(ln, lv)
-		case 14, 15:
-			m.kind, m.re = "nre", g.genRx(ln, lv)
+			if g.avoid {
+				m.kind, m.re = "re", &rx{kind: "plus", a: &rx{kind: "any"}} // =~".+"
+			}
+		case 10, 11, 12, 13, 14, 15:
+			m.kind = "re"
+			if g.r.Chance(33) {
+				m.kind = "nre"
+			}
+			m.re = g.genRx(ln, lv)
+			for tries := 0; g.avoid && !g.rxSafe(ln, m.re) && tries < 6; tries++ {
+				m.re = g.genRx(ln, lv)
+			}
+			if g.avoid && !g.rxSafe(ln, m.re) {
+				m.kind, m.re, m.lit = "eq", nil, lv
+			}
 		case 16:
 			m.kind, m.lit = "ne", "nosuch"
 		default:
@@ -479,8 +521,9 @@ func (g *exprGen) evalTime() int64 {
 	}
 }
 
-func (g *exprGen) genQuery() *query {
+func (g *exprGen) genQuery(avoid bool) *query {
 	g.hint = nil
+	g.avoid = avoid
 	t := g.evalTime()
 	depth := 0
 	switch x := g.r.Intn(10); {
